@@ -3,11 +3,11 @@ import Pixman.Model.Glyph
 namespace Driver.Glyph
 open Pixman.Glyph
 
-def parseOp (i : Nat) (t : String) : Option Op :=
+def parseOp (_i : Nat) (t : String) : Option Op :=
   match t.splitOn ":" with
   | ["F"] => some .freeze
   | ["T"] => some .thaw
-  | ["I", f, k] => do some (.insert i (← f.toNat?) (← k.toNat?))
+  | ["I", f, k] => do some (.insert (← f.toNat?) (← k.toNat?))
   | ["L", f, k] => do some (.lookup (← f.toNat?) (← k.toNat?))
   | ["R", f, k] => do some (.remove (← f.toNat?) (← k.toNat?))
   | ["U", f, k] => do some (.touch (← f.toNat?) (← k.toNat?))
